@@ -12,7 +12,7 @@ structure User where
   name : Bytes
   admin : Bool
   password : Bytes
-  deriving Repr, DecidableEq
+  deriving Repr, DecidableEq, Hashable
 
 /-- The agent as the web API sees it. -/
 structure St where
